@@ -4,6 +4,7 @@ CONSTANTS
   KindOf <- DemoKind
   ClassesOf <- DemoClasses
   ConflictsOf <- DemoConflicts
+  SecretOf <- DemoSecret
   Width = 2
   Defects <- DefectPair
 SPECIFICATION Spec
